@@ -66,7 +66,7 @@ func VerifC01Relay() {
 	}
 	p := NewProxy()
 	p.SetRoundTripper(o)
-	p.handleLoop(conn)
+	serveConn(p, conn)
 
 	// how many exchanges should have been served: up to and including the first that asks to close
 	served := 0
